@@ -52,7 +52,10 @@ def brute(alphabet, prefix, patterns, just_prefix, n, proper=False):
 
 
 class WC(CombinatorialClass[W]):
-    def __init__(self, prefix, patterns, alphabet, just_prefix=False, stats=(), proper=False):
+    def __init__(self, prefix, patterns, alphabet, just_prefix=False, stats=(), proper=False, right=None):
+        # right: None, or a second word class; then this class is the set of *pairs*
+        # u|v (u in the class described by the other fields, v in `right`, '|' a separator
+        # counted as one letter), i.e. a product of two non-trivial factors
         self.alphabet = tuple(sorted(alphabet))
         self.prefix = W(prefix)
         self.patterns = tuple(sorted(set(map(W, patterns))))
@@ -60,12 +63,23 @@ class WC(CombinatorialClass[W]):
         self.stats = tuple(sorted((str(k), "".join(sorted(set(v)))) for k, v in stats))
         # proper: only the words strictly longer than the prefix ("C+(p)")
         self.proper = bool(proper) and not self.just_prefix
+        if right is not None:
+            if isinstance(right, dict):
+                right = WC.from_descriptor(dict(right, bytes=isinstance(self, WCB)))
+            right = right.with_(stats=self.stats)
+            assert right.right is None, "pairs do not nest"
+        self.right = right
 
     # -- required by the engine
     def _bad(self, word):
         return any(p in word for p in self.patterns)
 
+    def left_part(self):
+        return self.with_(right=None)
+
     def is_empty(self):
+        if self.right is not None and self.right.is_empty():
+            return True
         if self._bad(self.prefix):
             return True
         if self.proper:
@@ -73,7 +87,8 @@ class WC(CombinatorialClass[W]):
         return False
 
     def _key(self):
-        return (self.alphabet, self.prefix, self.patterns, self.just_prefix, self.stats, self.proper)
+        return (self.alphabet, self.prefix, self.patterns, self.just_prefix, self.stats, self.proper,
+                None if self.right is None else self.right._key())
 
     def __eq__(self, other):
         if not isinstance(other, WC):
@@ -86,10 +101,13 @@ class WC(CombinatorialClass[W]):
     def __repr__(self):
         return (f"{type(self).__name__}({str(self.prefix)!r},{list(map(str, self.patterns))!r},"
                 f"{''.join(self.alphabet)!r},{self.just_prefix},{list(self.stats)!r}"
-                f"{',proper' if self.proper else ''})")
+                f"{',proper' if self.proper else ''}"
+                f"{'' if self.right is None else ',right=' + repr(self.right)})")
 
     def __str__(self):
         st = " " + ",".join(f"{k}=#{v}" for k, v in self.stats) if self.stats else ""
+        if self.right is not None:
+            return f"[{self.left_part()}] | [{self.right}]"
         if self.just_prefix:
             return f"word '{self.prefix}'{st}"
         plus = "+" if self.proper else ""
@@ -99,25 +117,33 @@ class WC(CombinatorialClass[W]):
         return {"prefix": str(self.prefix), "patterns": [str(p) for p in self.patterns],
                 "alphabet": "".join(self.alphabet), "just_prefix": self.just_prefix,
                 "stats": [list(s) for s in self.stats], "bytes": isinstance(self, WCB),
-                "proper": self.proper}
+                "proper": self.proper,
+                "right": None if self.right is None else self.right.descriptor()}
 
     @staticmethod
     def from_descriptor(d):
         cls = WCB if d.get("bytes") else WC
+        right = d.get("right")
+        if right is not None:
+            right = WC.from_descriptor(dict(right, bytes=bool(d.get("bytes"))))
         return cls(d["prefix"], d["patterns"], d["alphabet"], d["just_prefix"],
-                   [tuple(s) for s in d["stats"]], d.get("proper", False))
+                   [tuple(s) for s in d["stats"]], d.get("proper", False), right)
 
     def to_jsonable(self):
         d = super().to_jsonable()
         d.update(prefix=str(self.prefix), patterns=[str(p) for p in self.patterns],
                  alphabet=list(self.alphabet), just_prefix=int(self.just_prefix),
-                 stats=[list(s) for s in self.stats], proper=int(self.proper))
+                 stats=[list(s) for s in self.stats], proper=int(self.proper),
+                 right=None if self.right is None else self.right.to_jsonable())
         return d
 
     @classmethod
     def from_dict(cls, d):
+        right = d.get("right")
+        if right is not None:
+            right = cls.from_dict(right)
         return cls(d["prefix"], d["patterns"], d["alphabet"], bool(d["just_prefix"]),
-                   [tuple(s) for s in d["stats"]], bool(d.get("proper", 0)))
+                   [tuple(s) for s in d["stats"]], bool(d.get("proper", 0)), right)
 
     # -- counting support
     @property
@@ -132,6 +158,8 @@ class WC(CombinatorialClass[W]):
         return tuple(sum(1 for c in obj if c in letters) for _, letters in self.stats)
 
     def get_minimum_value(self, parameter):
+        if self.right is not None:
+            return self.left_part().get_minimum_value(parameter) + self.right.get_minimum_value(parameter)
         base_value = self.stat_value(parameter, self.prefix)
         if self.proper:
             letters = dict(self.stats)[parameter]
@@ -149,20 +177,36 @@ class WC(CombinatorialClass[W]):
                 yield dict(zip(self.extra_parameters, p))
 
     def is_atom(self):
-        return self.just_prefix
+        return self.just_prefix and self.right is None
 
     def minimum_size_of_object(self):
-        return len(self.prefix) + (1 if self.proper else 0)
+        own = len(self.prefix) + (1 if self.proper else 0)
+        if self.right is not None:
+            return own + 1 + self.right.minimum_size_of_object()
+        return own
+
+    def _all_objects(self, n):
+        if self.right is None:
+            yield from brute(self.alphabet, self.prefix, self.patterns, self.just_prefix, n, self.proper)
+            return
+        for i in range(n):
+            lefts = list(brute(self.alphabet, self.prefix, self.patterns, self.just_prefix, i, self.proper))
+            if not lefts:
+                continue
+            rights = list(self.right._all_objects(n - 1 - i))
+            for u in lefts:
+                for v in rights:
+                    yield W(u + "|" + v)
 
     def objects_of_size(self, n, **parameters):
-        for w in brute(self.alphabet, self.prefix, self.patterns, self.just_prefix, n, self.proper):
+        for w in self._all_objects(n):
             if parameters and any(self.stat_value(k, w) != v for k, v in parameters.items()):
                 continue
             yield w
 
     def with_(self, **kw):
         d = dict(prefix=self.prefix, patterns=self.patterns, alphabet=self.alphabet,
-                 just_prefix=self.just_prefix, stats=self.stats, proper=self.proper)
+                 just_prefix=self.just_prefix, stats=self.stats, proper=self.proper, right=self.right)
         d.update(kw)
         if d["just_prefix"]:
             d["proper"] = False
@@ -175,12 +219,15 @@ class WCB(WC):
     def to_bytes(self):
         return json.dumps([str(self.prefix), [str(p) for p in self.patterns],
                            "".join(self.alphabet), self.just_prefix,
-                           [list(s) for s in self.stats], self.proper]).encode()
+                           [list(s) for s in self.stats], self.proper,
+                           None if self.right is None else self.right.to_bytes().decode()]).encode()
 
     @classmethod
     def from_bytes(cls, b):
-        p, pats, al, jp, st, pr = json.loads(b.decode())
-        return cls(p, pats, al, jp, [tuple(s) for s in st], pr)
+        p, pats, al, jp, st, pr, right = json.loads(b.decode())
+        if right is not None:
+            right = cls.from_bytes(right.encode())
+        return cls(p, pats, al, jp, [tuple(s) for s in st], pr, right)
 
 
 def atom_stats(cls, word, drop):
@@ -223,7 +270,7 @@ class Expand(_Opts, DisjointUnionStrategy[WC, W]):
         super().__init__(**kw)
 
     def decomposition_function(self, c):
-        if c.just_prefix:
+        if c.just_prefix or c.right is not None:
             return None
         letters = c.alphabet if self.order != 1 else c.alphabet[::-1]
         extensions = [c.with_(prefix=c.prefix + a, proper=False) for a in letters]
@@ -310,7 +357,7 @@ class RemoveFront(_Opts, CartesianProductStrategy[WC, W]):
         return atoms, v
 
     def decomposition_function(self, c):
-        if c.just_prefix or c.is_empty():
+        if c.just_prefix or c.right is not None or c.is_empty():
             return None
         pieces = self._pieces(c)
         if pieces is None:
@@ -350,6 +397,53 @@ class RemoveFront(_Opts, CartesianProductStrategy[WC, W]):
         return tuple(parts)
 
 
+class SplitPair(_Opts, CartesianProductStrategy[WC, W]):
+    """[A] | [B]  =  A x {'|'} x B : a product with two non-trivial factors (several
+    compositions of a size), the separator being an atom without statistics."""
+
+    OPTS = ("bar_first",)
+
+    def __init__(self, bar_first=False, **kw):
+        self.bar_first = bool(bar_first)
+        super().__init__(**kw)
+
+    @staticmethod
+    def _bar(c):
+        return WC("|", (), tuple(c.alphabet) + ("|",), just_prefix=True, stats=()) if not isinstance(c, WCB) \
+            else WCB("|", (), tuple(c.alphabet) + ("|",), just_prefix=True, stats=())
+
+    def decomposition_function(self, c):
+        if c.right is None or c.is_empty():
+            return None
+        kids = [c.left_part(), self._bar(c), c.right]
+        if self.bar_first:
+            kids = [kids[1], kids[0], kids[2]]
+        return tuple(kids)
+
+    def extra_parameters(self, c, children=None):
+        if children is None:
+            children = self.decomposition_function(c)
+            if children is None:
+                raise StrategyDoesNotApply("Strategy does not apply")
+        return tuple({k: k for k in ch.extra_parameters} for ch in children)
+
+    def formal_step(self):
+        return f"split pair(bar_first={self.bar_first})"
+
+    def backward_map(self, c, objs, children=None):
+        objs = list(objs)
+        if self.bar_first:
+            objs = [objs[1], objs[0], objs[2]]
+        yield W("".join(objs))
+
+    def forward_map(self, c, word, children=None):
+        u, v = word.split("|", 1)
+        parts = [W(u), W("|"), W(v)]
+        if self.bar_first:
+            parts = [parts[1], parts[0], parts[2]]
+        return tuple(parts)
+
+
 class LetterSym(_Opts, SymmetryStrategy[WC, W]):
     """Reverse the alphabet order: i-th letter <-> (k-1-i)-th letter."""
 
@@ -357,6 +451,8 @@ class LetterSym(_Opts, SymmetryStrategy[WC, W]):
         return str.maketrans("".join(c.alphabet), "".join(c.alphabet[::-1]))
 
     def decomposition_function(self, c):
+        if c.right is not None:
+            return None
         t = self._tr(c)
         return (c.with_(prefix=c.prefix.translate(t), patterns=[p.translate(t) for p in c.patterns],
                         stats=[(k, letters.translate(t)) for k, letters in c.stats]),)
@@ -386,7 +482,7 @@ class _Inferral(_Opts, DisjointUnionStrategy[WC, W]):
 class MinimisePatterns(_Inferral):
     def decomposition_function(self, c):
         pats = [p for p in c.patterns if not any(q != p and q in p for q in c.patterns)]
-        if len(pats) == len(c.patterns):
+        if len(pats) == len(c.patterns) or c.right is not None:
             return None
         return (c.with_(patterns=pats),)
 
@@ -406,7 +502,7 @@ class DropDeadStat(_Inferral):
 
     def decomposition_function(self, c):
         dead = self._dead(c)
-        if not dead or c.is_empty():
+        if not dead or c.is_empty() or c.right is not None:
             return None
         return (c.with_(stats=[(k, l) for k, l in c.stats if k not in dead]),)
 
@@ -431,7 +527,7 @@ class MergeStats(_Inferral):
 
     def decomposition_function(self, c):
         m = self._plan(c)
-        if all(k == v for k, v in m.items()):
+        if all(k == v for k, v in m.items()) or c.right is not None:
             return None
         return (c.with_(stats=[(k, l) for k, l in c.stats if m[k] == k]),)
 
@@ -456,7 +552,7 @@ class RenameStats(_Inferral):
 
     def decomposition_function(self, c):
         plan = self._plan(c)
-        if plan is None:
+        if plan is None or c.right is not None:
             return None
         return (c.with_(stats=[(plan[k], letters) for k, letters in c.stats]),)
 
@@ -470,7 +566,8 @@ class RenameStats(_Inferral):
 class ExpandFactory(StrategyFactory[WC]):
     """mode 0: yields strategies; 1: yields ready rules; 2: additionally the Expand rule
     of the class whose prefix is one letter shorter (a rule whose parent is another class);
-    3: yields a lazily built rule whose children are computed on demand."""
+    3: yields a lazily built rule whose children are computed on demand;
+    4: first the rule about the shorter-prefix class, then the strategy for the class itself."""
 
     def __init__(self, mode=0, drop=False, plus=False):
         self.mode, self.drop, self.plus = int(mode), bool(drop), bool(plus)
@@ -487,6 +584,11 @@ class ExpandFactory(StrategyFactory[WC]):
 
             yield Rule(strat, c)
             yield Rule(RemoveFront(drop=self.drop), c)  # applies only to some classes
+            return
+        if self.mode == 4 and c.prefix and not c.just_prefix:
+            # the rule about the other class comes first, the class's own strategy after it
+            yield strat(c.with_(prefix=c.prefix[:-1], proper=False))
+            yield strat
             return
         try:
             yield strat(c)
@@ -519,7 +621,7 @@ class StatAtom(VerificationStrategy[WC, W]):
         super().__init__(ignore_parent=ignore_parent)
 
     def verified(self, c):
-        return c.just_prefix
+        return c.just_prefix and c.right is None
 
     def get_terms(self, c, n):
         if n == len(c.prefix) and not c.is_empty():
@@ -564,7 +666,7 @@ class PrefixVerified(VerificationStrategy[WC, W]):
         super().__init__(ignore_parent=ignore_parent)
 
     def verified(self, c):
-        return (not c.just_prefix) and (not c.is_empty()) and len(c.prefix) >= self.minlen
+        return (not c.just_prefix) and c.right is None and (not c.is_empty()) and len(c.prefix) >= self.minlen
 
     def get_terms(self, c, n):
         return Counter(c.get_parameters(w) for w in c.objects_of_size(n))
@@ -645,12 +747,13 @@ def make_pack(opts=None):
     inf_map = {"minimise": MinimisePatterns, "deadstat": DropDeadStat, "merge": MergeStats,
                "rename": RenameStats}
     inferral = [inf_map[name]() for name in o["inferral"]]
+    split_pair = SplitPair(bar_first=o["order"] == 1)
     if o["layout"] == "initial":
-        initial, sets = [remove], [[expand]]
+        initial, sets = [split_pair, remove], [[expand]]
     elif o["layout"] == "sets":
-        initial, sets = [], [[remove], [expand]]
+        initial, sets = [split_pair], [[remove], [expand]]
     else:
-        initial, sets = [], [[remove, expand]]
+        initial, sets = [split_pair], [[remove, expand]]
     if o["ver"] == "stat":
         ver = [StatAtom()]
     elif o["ver"] == "atom":
